@@ -315,7 +315,7 @@ func TestVerifC01(t *testing.T) {
 			Coq:        coq,
 			Defs:       defs,
 			Nontrivial: res != nil && res.Reason != filtering.NotFilteredNotFound,
-			Classes:    append(c01Classes(ps.cfg, q, &o), extra...),
+			Classes:    append(append(c01Classes(ps.cfg, q, &o), plSubnetClasses(ps.cfg, q)...), extra...),
 			MonitorOK:  ok,
 			MonitorMsg: msg,
 			Desc:       map[string]any{"config": ps.cfg.Desc(), "name": q.Name, "qtype": dns.TypeToString[q.QType], "client": q.Addr.String()},
@@ -409,6 +409,26 @@ func TestVerifC01(t *testing.T) {
 		ps12 := plNewServer(t, base())
 		emit(ps12, &plQuery{Name: "a.test.", QType: dns.TypeA, Addr: cli, Answer: nil}, "upstream-error")
 		ask(ps12, "use-application-dns.net.", dns.TypeA, "canary")
+	}
+
+	{
+		// two clients identified by nested subnets with different filtering
+		// flags: the most specific subnet's client decides (both orders of
+		// configuration, both assignments of the flags)
+		for k := 0; k < 4; k++ {
+			c := base()
+			c.Block = []*vfRule{{ID: 100, Pattern: "||a.test^"}}
+			inner := plClient{Name: "kids-net", Subnets: []string{"10.0.0.0/24"}, UseOwn: true, Filtering: k%2 == 0}
+			outer := plClient{Name: "whole-lan", Subnets: []string{"10.0.0.0/8"}, UseOwn: true, Filtering: k%2 != 0}
+			c.Clients = []plClient{inner, outer}
+			if k >= 2 {
+				c.Clients = []plClient{outer, inner}
+			}
+			ps := plNewServer(t, c)
+			for _, a := range []string{"10.0.0.2", "10.0.1.7", "192.168.1.5"} {
+				emit(ps, &plQuery{Name: "a.test.", QType: dns.TypeA, Addr: netip.MustParseAddr(a), Answer: c01Answer(rnd.Fork(5), "a.test.", dns.TypeA)})
+			}
+		}
 	}
 
 	// --- round 2 prelude: rewrites, hosts file, safe search, named block page, DDR, DHCP
